@@ -252,6 +252,9 @@ func (d *Decoder) readTypedList(tag byte) (interface{}, error) {
 		if h := holderOf(item); h != nil && !h.complete {
 			return nil, errUnfinishedList
 		}
+		if d.unfinishedMap(item, aryType.Elem()) {
+			return nil, errUnfinishedMap
+		}
 
 		v := d.itemValue(item, aryType.Elem())
 		if grow {
